@@ -237,3 +237,5 @@ def replay(ck, rec):
     v = rec["vector"]
     p = dict(v, nontrivial=True)
     judge(ck, [p], run_programs(ck, [p], h))
+    for d in ck.drifts:
+        print("SPEC-DRIFT property=%s: the code agrees with bash, the expected value of the vector does not" % ck.prop)
